@@ -46,7 +46,8 @@ EXPLANATION = (
     ' RC (call-condition drift, stonelint.effects.run_calls): for every call of a repository or imported-library function in the functions the property is anchored in, the path conditions of its occurrences are compared with reference/effects.json by truth table; an assignment under which the function used to make the call and now completes without it is a violation (tests on memo tables, emptiness of the iterated collection and earlier refusals excepted; re-spelled conditions are not claimed).'
     ' MK (memo-key rule, stonelint.memo): a memo table or done-set the reference tree does not have must be keyed by every access path the skipped code reads, injectively and type-aware.'
     ' GR (stonelint.grammar): the spec grammar (BNF in the p_* docstrings) and the lexer tables (token regexes, KEYWORDS/RESERVED, t_ignore, states) are extracted with ast: every grammar symbol is defined, reachable and productive; every p[k] of an action exists in every alternative its path admits; against reference/grammar.json the production set is unchanged up to nonterminal names or no token string is found on which the LALR tables of the two grammars disagree; the lexer tables give the same first token on every probe text. A report carries the witness sentence / text; a change without witness is not claimed.'
-    ' RI (interface drift, stonelint.interface): constants and tables (folded values), compiled regular expressions (witness text), parameter defaults, special methods, base classes and caching decorators of the modules the property rests on are compared with reference/interface.json; only a concrete difference in what is computed is reported.')
+    ' RI (interface drift, stonelint.interface): constants and tables (folded values), compiled regular expressions (witness text), parameter defaults, special methods, base classes and caching decorators of the modules the property rests on are compared with reference/interface.json; only a concrete difference in what is computed is reported.'
+    ' MU (mutation drift, stonelint.mutation): the functions the property rests on update in place only the caller-owned, class-level and module-level objects they updated on the confirmed tree, and have no new handler that swallows an exception (reference/mutations.json).')
 ASSUMPTIONS = [
     'reference/enforcement_sites.json holds, per function, the number of error-reporting sites '
     'confirmed by reading at the pinned commit plus the fix commits; a function may gain sites '
@@ -541,5 +542,7 @@ def run(pm, ctx):
     memo.run(pm, ctx, 'C01-MK', OWN['C01'])
     from .. import interface
     interface.run(pm, ctx, 'C01-RI', OWN['C01'])
+    from .. import mutation
+    mutation.run(pm, ctx, 'C01-MU', OWN['C01'])
     from .. import grammar
     grammar.run(pm, ctx, 'C01-GR', which=('GR1','GR2','GR3','GR4'))
